@@ -1,0 +1,12 @@
+// Copyright (c) HashiCorp, Inc.
+// SPDX-License-Identifier: MPL-2.0
+
+//go:build !verif
+
+package net
+
+// simPoint and simSelect are deterministic-simulation scheduling hooks; without
+// the "verif" build tag they compile to nothing.
+func simPoint(*MultiplexingListener, string) {}
+
+func simSelect(*MultiplexingListener, string) int { return 0 }
